@@ -3,6 +3,10 @@ import DirectVerif.Lemmas.C08Enum
 import DirectVerif.Lemmas.C08Consist
 import DirectVerif.Lemmas.C08Shape
 import DirectVerif.Lemmas.C08Tags
+import DirectVerif.Lemmas.C08PrePost
+import DirectVerif.Lemmas.C08Err
+import DirectVerif.Lemmas.C08Given
+import DirectVerif.Lemmas.C08Ext
 /-!
 # C08 — the training transform pipeline is scale-equivariant and self-consistent
 
@@ -19,6 +23,8 @@ programs `compile`, their semantics `run` (what the driver executes) and the deg
 * `masked_is_mask_of_normalised`, `target_is_recon_of_normalised` (+ the SSL variant).
 * `shape_tags`, `crop_shape` (all flags), `same_filename_same_mask`, `same_filename_same_crop`, `wrapper_equiv`.
 * witnesses that the check rejects the mutants the property is about (`*_rejected`).
+* phase 3: the second builder pair (`prepost_degrees_ok`, `prepost_equivariant`, `prepost_consistent`), samples that
+  already contain masks / maps (`given_*`), the `IndexError` branch of the percentile scaling (`runE_*`).
 -/
 set_option linter.unusedSectionVars false
 set_option linter.unusedSimpArgs false
@@ -373,5 +379,269 @@ theorem wrapper_equiv {α β} (forward g : WSample α β → WSample α β) (s :
 /-- the hypotheses are satisfiable: the identity module -/
 example {α β} (s : WSample α β) (h : ∀ k e, s k = some e → ∀ l, e ≠ .vals l) : wrapToggle id s = s :=
   wrapper_equiv id id s rfl h
+
+/-! ## phase 3 — `build_pre_mri_transforms` ++ `build_post_mri_transforms` -/
+
+/-- **`prepost_degrees_ok`**: the pre-transform followed by the post-transform (the CPU / GPU split of the same
+pipeline, with `ComputeImage` *before* `Normalize` and `Normalize`'s default key list) type-checks for every valid
+combination of its flags: the target — computed from the un-normalised k-space — is normalised afterwards, and so
+is the body-coil image. -/
+theorem prepost_degrees_ok (c : Config) (hv : c.validPP = true) : degreesOk false (buildPrePost c) = true := by
+  have h0 := prepost_degrees_canon c hv
+  rw [degreesOk_eq_from] at h0 ⊢
+  exact degreesOkFrom_of_rel initEnv false (buildPrePost c) (buildPrePost (canon c)) (rel_buildPP c) h0
+
+example : ({} : Config).validPP = true ∧ ({ recon := .senseMod, smapType := .unit, bodyCoil := true } : Config).validPP = true := by
+  decide
+
+/-- … hence it is scale-equivariant (same statement as `build_equivariant`) -/
+theorem prepost_equivariant {sqrt : K → K} (hs : SqrtHom sqrt) {X : Ext K} (hX : ExtHom X) (m : Meta)
+    (cfg : Config) (hv : cfg.validPP = true) (c : K) (hc : 0 < c) (x : Val K) :
+    ∃ out outc, run (fieldOps sqrt) X m (buildPrePost cfg) x = .ok out
+      ∧ run (fieldOps sqrt) X m (buildPrePost cfg) (scaleV c x) = .ok outc
+      ∧ (∀ k ∈ normalisedKeys, outc k = out k)
+      ∧ (∃ sf, out .scalingFactor = some sf ∧ outc .scalingFactor = some (scaleV c sf))
+      ∧ (∃ t, out .target = some t) :=
+  pipeline_equivariant hs hX m false (buildPrePost cfg) (prepost_degrees_ok cfg hv) c hc x
+
+/-- static degree of an output key of a stage list (from the raw sample) -/
+def degOf (l : List Stage) (k : Key) : Option Int :=
+  match typeProgram (program l) initEnv with
+  | .ok e => e k
+  | .error _ => none
+
+/-- in the pre/post pair the body-coil image is a normalised output too (it is *not* in the single-builder
+pipeline, whose `Normalize` is given `[kspace, masked_kspace]` only: there it keeps degree 1) -/
+theorem body_coil_image_degree :
+    degOf (buildPrePost { bodyCoil := true }) .bodyCoilImage = some 0
+    ∧ degOf (build { bodyCoil := true }) .bodyCoilImage = some 1 := by decide
+
+/-- **`prepost_consistent`** — every valid configuration, every raw sample on which the pair succeeds:
+`masked_kspace = applyMask(sampling_mask, kfull / s)`, the output `kspace` (when kept) is `kfull / s`, and
+`target = ComputeImage(kfull) / s` — the reconstruction of the *un-normalised* k-space, normalised afterwards. -/
+theorem prepost_consistent {sqrt : K → K} (X : Ext K) (m : Meta) (cfg : Config) (hv : cfg.validPP = true)
+    (x : Val K) (out : Store K) (h : run (fieldOps sqrt) X m (buildPrePost cfg) x = .ok out) :
+    ∃ kfull mask sf, out .samplingMask = some mask ∧ out .scalingFactor = some sf
+      ∧ out .maskedKspace = some (evalOp (fieldOps sqrt) X m .applyMask [mask, evalOp (fieldOps sqrt) X m .safeDiv [sf, kfull]])
+      ∧ out .target = some (evalOp (fieldOps sqrt) X m .safeDiv
+            [sf, reconVal (fieldOps sqrt) X m cfg.recon kfull ((out .sensitivityMap).getD Val.empty)])
+      ∧ (out .kspace = some (evalOp (fieldOps sqrt) X m .safeDiv [sf, kfull]) ∨ (cfg.deleteKspace = true ∧ out .kspace = none)) := by
+  obtain ⟨kfull, mask, sf, a1, a2, a3, a4, a5⟩ := prepost_final (fieldOps sqrt) X m cfg hv x out h
+  refine ⟨kfull, mask, sf, a1, a2, ?_, a4, a5⟩
+  rw [a3, safeDiv_applyMask_comm]
+
+/-- moving `ComputeImage` behind `Normalize`'s key list (dropping `target` from the default keys) is rejected -/
+theorem post_target_not_normalised_rejected :
+    degreesOk false (buildPre {} ++ [.estimateSensitivityMap .kspace .rssEstimate false, .deleteKeys [.acsMask],
+      .computeImage .kspace .target .rss, .applyMask .samplingMask .kspace .maskedKspace,
+      .computeScalingFactor (.key .maskedKspace) true .scalingFactor,
+      .normalize .scalingFactor [.maskedKspace, .kspace, .bodyCoilImage]]) = false := by decide
+
+/-! ## phase 3 — samples that already contain tensor entries -/
+
+theorem givenStore_scale (c : K) (x : Val K) (g : Given K) :
+    givenStore (scaleV c x) g
+      = scaleS c (givenEnv g.samplingMask.isSome g.acsMask.isSome g.sensitivityMap.isSome) (givenStore x g) := by
+  funext k
+  unfold givenStore scaleS givenEnv
+  cases k <;> simp <;> (first | (cases g.samplingMask <;> simp) | (cases g.acsMask <;> simp) | (cases g.sensitivityMap <;> simp))
+
+theorem agree_given (x : Val K) (g : Given K) :
+    Agree (givenEnv g.samplingMask.isSome g.acsMask.isSome g.sensitivityMap.isSome) (givenStore x g) := by
+  intro k; unfold givenEnv givenStore
+  cases k <;> simp <;> (first | (cases g.samplingMask <;> simp) | (cases g.acsMask <;> simp) | (cases g.sensitivityMap <;> simp))
+
+/-- **`pipeline_equivariant_from`** — `pipeline_equivariant` from *any* initial sample the static environment
+`e0` describes (keys present, degrees): for a stage list that passes the static check from `e0`, the run on the
+scaled sample (every entry scaled by `c ^ degree`) succeeds like the run on the sample, the normalised keys hold
+the same tensors, the scaling factor is multiplied by `c`. -/
+theorem pipeline_equivariant_from {sqrt : K → K} (hs : SqrtHom sqrt) {X : Ext K} (hX : ExtHom X) (m : Meta)
+    (e0 : TEnv) (s0 : Store K) (ha : Agree e0 s0)
+    (ssl : Bool) (l : List Stage) (hl : degreesOkFrom e0 ssl l = true) (c : K) (hc : 0 < c) :
+    ∃ out outc, runFrom (fieldOps sqrt) X m l s0 = .ok out
+      ∧ runFrom (fieldOps sqrt) X m l (scaleS c e0 s0) = .ok outc
+      ∧ (∀ k ∈ normalisedKeys, outc k = out k)
+      ∧ (∃ sf, out .scalingFactor = some sf ∧ outc .scalingFactor = some (scaleV c sf))
+      ∧ (∃ t, out .target = some t) := by
+  unfold degreesOkFrom at hl
+  cases ht : typeProgram (program l) e0 with
+  | error er => simp [ht] at hl
+  | ok e =>
+    simp only [ht, finalOk, Bool.and_eq_true] at hl
+    obtain ⟨⟨⟨⟨hsf, hnorm⟩, htg⟩, _⟩, _⟩ := hl
+    obtain ⟨out, h1, h2, h3⟩ := exec_sound hs hX c hc m (program l) e0 e s0 ha ht
+    refine ⟨out, scaleS c e out, h1, h3, ?_, ?_, ?_⟩
+    · intro k hk
+      have hk' := List.all_eq_true.mp hnorm k hk
+      unfold degIsOrAbsent at hk'
+      unfold scaleS
+      cases hek : e k with
+      | none =>
+        have := h2 k; simp only [hek, Option.isSome_none] at this
+        cases hok : out k with
+        | none => rfl
+        | some v => simp [hok] at this
+      | some d =>
+        simp only [hek, beq_iff_eq] at hk'; subst hk'
+        cases hok : out k with
+        | none => rfl
+        | some v => simp
+    · unfold degIs at hsf
+      cases hek : e .scalingFactor with
+      | none => simp [hek] at hsf
+      | some d =>
+        simp only [hek, beq_iff_eq] at hsf; subst hsf
+        have := h2 .scalingFactor; simp only [hek, Option.isSome_some] at this
+        cases hok : out .scalingFactor with
+        | none => simp [hok] at this
+        | some v => exact ⟨v, rfl, by simp [scaleS, hek, hok]⟩
+    · unfold degIs at htg
+      cases hek : e .target with
+      | none => simp [hek] at htg
+      | some d =>
+        have := h2 .target; simp only [hek, Option.isSome_some] at this
+        cases hok : out .target with
+        | none => simp [hok] at this
+        | some v => exact ⟨v, rfl⟩
+
+/-- **`given_masks_equivariant`** (scenario A) — prospectively under-sampled data: the sample brings
+`sampling_mask` and `acs_mask`, no mask function is configured.  Every configuration valid for such a sample is
+scale-equivariant; the given masks are not scaled. -/
+theorem given_masks_equivariant {sqrt : K → K} (hs : SqrtHom sqrt) {X : Ext K} (hX : ExtHom X) (m : Meta)
+    (cfg : Config) (hmf : cfg.maskFunc = false) (hv : cfg.validG true true false = true)
+    (mask acs : Val K) (c : K) (hc : 0 < c) (x : Val K) :
+    ∃ out outc, runFrom (fieldOps sqrt) X m (build cfg) (givenStore x ⟨some mask, some acs, none⟩) = .ok out
+      ∧ runFrom (fieldOps sqrt) X m (build cfg) (givenStore (scaleV c x) ⟨some mask, some acs, none⟩) = .ok outc
+      ∧ (∀ k ∈ normalisedKeys, outc k = out k)
+      ∧ (∃ sf, out .scalingFactor = some sf ∧ outc .scalingFactor = some (scaleV c sf))
+      ∧ (∃ t, out .target = some t) := by
+  rw [givenStore_scale]
+  exact pipeline_equivariant_from hs hX m _ _ (agree_given x ⟨some mask, some acs, none⟩) cfg.ssl (build cfg)
+    (givenA_degrees_ok cfg hmf hv) c hc
+
+/-- **`given_map_equivariant`** (scenario B) — the dataset provides the sensitivity map (so SENSE targets are
+possible without estimating maps); a mask function is configured. -/
+theorem given_map_equivariant {sqrt : K → K} (hs : SqrtHom sqrt) {X : Ext K} (hX : ExtHom X) (m : Meta)
+    (cfg : Config) (hmf : cfg.maskFunc = true) (hv : cfg.validG false false true = true)
+    (smap : Val K) (c : K) (hc : 0 < c) (x : Val K) :
+    ∃ out outc, runFrom (fieldOps sqrt) X m (build cfg) (givenStore x ⟨none, none, some smap⟩) = .ok out
+      ∧ runFrom (fieldOps sqrt) X m (build cfg) (givenStore (scaleV c x) ⟨none, none, some smap⟩) = .ok outc
+      ∧ (∀ k ∈ normalisedKeys, outc k = out k)
+      ∧ (∃ sf, out .scalingFactor = some sf ∧ outc .scalingFactor = some (scaleV c sf))
+      ∧ (∃ t, out .target = some t) := by
+  rw [givenStore_scale]
+  exact pipeline_equivariant_from hs hX m _ _ (agree_given x ⟨none, none, some smap⟩) cfg.ssl (build cfg)
+    (givenB_degrees_ok cfg hmf hv) c hc
+
+/-- the hypotheses are satisfiable: inference on pre-masked data without maps; SENSE with dataset maps and no
+estimation -/
+example : ({ maskFunc := false, estimateSmaps := false } : Config).validG true true false = true
+    ∧ ({ recon := .sense, estimateSmaps := false } : Config).validG false false true = true := by decide
+
+/-- a sample-provided sampling mask *without* the ACS mask makes the crop stage fail (`CropKspace` crops
+`sample["acs_mask"]` whenever `sampling_mask` is present): rejected statically -/
+theorem given_mask_without_acs_crop_rejected :
+    degreesOkFrom (givenEnv true false false) false
+      (build { maskFunc := false, estimateSmaps := false, crop := .tuple }) = false := by decide
+
+/-! ## phase 3 — the `IndexError` branch of the percentile scaling -/
+
+/-- `runE` refines `run`: when it completes, `run` completes with the same sample; when it fails with an error of
+`run`, `run` fails with it; and a run that `run` completes is either completed by `runE` or hits the
+`IndexError` of `torch.kthvalue` -/
+theorem runE_refines_run (S : Ops K) (X : Ext K) (m : Meta) (l : List Stage) (x : Val K) :
+    (∀ out, runE S X m l x = .ok out → run S X m l x = .ok out)
+    ∧ (∀ e, runE S X m l x = .error (.base e) → run S X m l x = .error e)
+    ∧ (∀ out, run S X m l x = .ok out → runE S X m l x = .ok out ∨ ∃ k, runE S X m l x = .error (.indexError k)) :=
+  ⟨fun out h => execE_ok S X m _ _ out h, fun e h => execE_base S X m _ _ e h,
+   fun out h => exec_ok_cases S X m _ _ out h⟩
+
+/-- **`runE_equivariant`** — for any stage list that passes the static check: the refined run on `c·x` is the
+refined run on `x` mapped through the scaling.  In particular the `IndexError` (no coil of the scaling tensor has
+a non-zero sum) is raised for `c·x` exactly when it is raised for `x`, for the same key; it is the *only* error a
+well-typed pipeline has. -/
+theorem runE_equivariant {sqrt : K → K} (hs : SqrtHom sqrt) {X : Ext K} (hX : ExtHom X) (m : Meta)
+    (ssl : Bool) (l : List Stage) (hl : degreesOk ssl l = true) (c : K) (hc : 0 < c) (x : Val K) :
+    ∃ e, typeProgram (program l) initEnv = .ok e
+      ∧ runE (fieldOps sqrt) X m l (scaleV c x) = (runE (fieldOps sqrt) X m l x).map (scaleS c e)
+      ∧ (∀ er, runE (fieldOps sqrt) X m l x = .error er → ∃ k, er = .indexError k) := by
+  unfold degreesOk at hl
+  cases ht : typeProgram (program l) initEnv with
+  | error er => simp [ht] at hl
+  | ok e =>
+    refine ⟨e, rfl, ?_, ?_⟩
+    · have : runE (fieldOps sqrt) X m l (scaleV c x) = execE (fieldOps sqrt) X m (program l) (rawStore (scaleV c x)) := rfl
+      rw [this, rawStore_scale]
+      exact execE_sound hs hX c hc m (program l) initEnv e (rawStore x) (agree_init x) ht
+    · intro er her
+      cases er with
+      | indexError k => exact ⟨k, rfl⟩
+      | base b =>
+        exfalso
+        have h1 := execE_base (fieldOps sqrt) X m _ _ b her
+        obtain ⟨out, h2, _⟩ := exec_sound hs hX c hc m (program l) initEnv e (rawStore x) (agree_init x) ht
+        have : exec (fieldOps sqrt) X m (program l) (rawStore x) = .error b := h1
+        rw [h2] at this
+        cases this
+
+/-- the error branch is inhabited and is what the percentile does on an all-zero sample — and on a sample whose
+only coil has entries that *cancel* (`data[_].sum(...).bool()` is the code's non-zero test); with the maximum
+instead of the percentile the same samples go through (scaling factor 0, all outputs 0 by the safe division) -/
+def intOps : Ops Int where
+  zero := 0
+  one := 1
+  add := (· + ·)
+  mul := (· * ·)
+  div := (· / ·)
+  neg := (- ·)
+  lt := fun a b => decide (a < b)
+  isZero := fun a => a == 0
+  sqrt := fun a => (Nat.sqrt a.toNat : Int)
+  ofNat := fun n => (n : Int)
+
+def intExt : Ext Int where
+  lin := fun _ _ v => v
+  crop := fun _ _ v => v
+  mask := fun _ _ _ _ _ len => List.replicate (len / 2) true
+  split := fun input _ _ ms => (ms.headD []).map fun b => b && input
+  eps := 0
+  kOf := fun _ => 1
+  padCoilsTo := 0
+  espirit := fun v => v
+
+example : isIndexError (runE intOps intExt ⟨[], []⟩ (build {}) ⟨1, 1, true, [0, 0, 0, 0]⟩) = true := by decide
+example : isIndexError (runE intOps intExt ⟨[], []⟩ (build {}) ⟨1, 1, true, [3, -3, 4, -4]⟩) = true := by decide
+example : isOk (runE intOps intExt ⟨[], []⟩ (build { percentile := false }) ⟨1, 1, true, [0, 0, 0, 0]⟩) = true := by decide
+example : isOk (runE intOps intExt ⟨[], []⟩ (build {}) ⟨1, 1, true, [3, 0, 0, 4]⟩) = true := by decide
+example : isIndexError (runE intOps intExt ⟨[], []⟩ (buildPrePost {}) ⟨2, 1, true, [0, 0, 0, 0]⟩) = true := by decide
+
+/-! ## phase 3 — the homogeneity of the externals as a theorem -/
+
+/-- **`linear_externals_hom`** — externals that act on the flat data as matrices whose coefficients depend on the
+operator, the metadata and the sizes only (a DFT in real/imaginary form, crop, zero pad, interpolating resize,
+flip, rotation, Gaussian weighting) satisfy `ExtHom`: for them the hypothesis of the equivariance theorems holds. -/
+theorem linear_externals_hom (sqrt : K → K) (L : LinearExt K) (X : Ext K) : ExtHom (L.toExt (fieldOps sqrt) X) :=
+  linearExt_hom sqrt L X
+
+/-- **`driver_externals_hom`** — the externals of the *executed* model (identity operators; C10's `centerCrop` lifted
+along both spatial axes for k-space and for sample-provided masks) satisfy `ExtHom` -/
+theorem driver_externals_hom (l : Driver.C08.Line) : ExtHom (Driver.C08.mkExt l) := driver_ext_hom l
+
+/-- the driver's scalar operations are the field operations of `ℚ` with the driver's square root: the theorems
+about `fieldOps` speak about the `def`s the driver runs -/
+theorem driver_ops_eq : Driver.C08.ratOps = fieldOps Driver.C08.ratSqrt := by
+  unfold Driver.C08.ratOps fieldOps
+  congr 1
+
+/-- hence, for the executed model, equivariance needs no assumption about the externals: for every line of the
+protocol (every crop size, mask, table), every valid configuration and every square root with `SqrtHom` -/
+theorem driver_build_equivariant {sqrt : Rat → Rat} (hs : SqrtHom sqrt) (l : Driver.C08.Line) (m : Meta)
+    (cfg : Config) (hv : cfg.valid = true) (c : Rat) (hc : 0 < c) (x : Val Rat) :
+    ∃ out outc, run (fieldOps sqrt) (Driver.C08.mkExt l) m (build cfg) x = .ok out
+      ∧ run (fieldOps sqrt) (Driver.C08.mkExt l) m (build cfg) (scaleV c x) = .ok outc
+      ∧ (∀ k ∈ normalisedKeys, outc k = out k)
+      ∧ (∃ sf, out .scalingFactor = some sf ∧ outc .scalingFactor = some (scaleV c sf)) := by
+  obtain ⟨out, outc, h1, h2, h3, h4, _⟩ := build_equivariant hs (driver_ext_hom l) m cfg hv c hc x
+  exact ⟨out, outc, h1, h2, h3, h4⟩
 
 end DirectVerif.C08
